@@ -183,6 +183,24 @@ func vpDetCell(role StateType, typ pb.MessageType, shapes []int) {
 	vpDigestsEqual(d0, d2, "T1/order-rotated")
 }
 
+// vpDetCellAll: all six iteration orders of every (at most three-key) map
+func vpDetCellAll(role StateType, typ pb.MessageType, shapes []int) {
+	d0 := vpDetOnce(role, typ, shapes, 0)
+	vpObserve("det", d0.term, d0.vote, d0.state, d0.committed, uint64(len(d0.msgs)), uint64(len(d0.after)))
+	for _, pol := range []int{1, 2, 3, 4, 5} {
+		vpRewindInputs()
+		d := vpDetOnce(role, typ, shapes, pol)
+		vpDigestsEqual(d0, d, "T1/all-orders")
+	}
+}
+
+func vpH_detAll_F_MsgHup()          { vpDetCellAll(StateFollower, pb.MsgHup, []int{0, 1}) }
+func vpH_detAll_C_MsgVoteResp()     { vpDetCellAll(StateCandidate, pb.MsgVoteResp, []int{0, 1}) }
+func vpH_detAll_L_MsgBeat()         { vpDetCellAll(StateLeader, pb.MsgBeat, []int{0, 1}) }
+func vpH_detAll_L_MsgCheckQuorum()  { vpDetCellAll(StateLeader, pb.MsgCheckQuorum, []int{0, 1}) }
+func vpH_detAll_L_MsgHeartbeatResp() { vpDetCellAll(StateLeader, pb.MsgHeartbeatResp, []int{1}) }
+func vpH_detAll_L_MsgProp()         { vpDetCellAll(StateLeader, pb.MsgProp, []int{1}) }
+
 var vpJointShapes = []int{0, 1, 7}
 
 func vpH_det_F_MsgVote()          { vpDetCell(StateFollower, pb.MsgVote, vpJointShapes) }
